@@ -485,21 +485,45 @@ def dataset_const_targets():
     return ts
 
 
-def lint_vcs():
-    """the static scan as a bounded stand-in (a lint: run, reported, a new unclassified hit fails it, never counted as proof)"""
-    import scan
-    hits = scan.scan()
-    recs, unknown = scan.classify(hits)
-    from collections import Counter
-    summary = ', '.join(f'{n} x {k[0]} [{k[1]}]' for k, n in sorted(Counter((r['kind'], r['class']) for r in recs).items()))
-    about = ('LINT (not a proof): every `mutable` member, variable with static storage duration and const_cast in include/ + src/ is '
-             'classified (covered by a frame proof / per-call / per-task / synchronisation / init-once / named unchecked): ' + summary)
-    if unknown:
-        about += ' -- UNCLASSIFIED: ' + '; '.join(f'{r["file"]}:{r["line"]} {r["kind"]} {r["name"]}: {r["text"]}' for r in unknown[:8])
-    v = VC('static_scan/shared_mutable_state_classified', '(assert true)' if unknown else '(assert false)', about=about, solvers=['z3-new', 'z3'])
-    v.bound = 'token-level scan of the library sources (supporting fact, not a proof)'
-    v.note = '; '.join(f'{r["file"]}:{r["line"]} {r["name"]} [{r["class"]}] {r["why"]}' for r in recs if r['kind'] == 'mutable member')
-    return [v]
+class LintVC(VC):
+    """the static scan as a bounded stand-in (a lint: run, reported, never counted as proof).  It cannot refute anything: every hit
+    classified -> the (trivial) obligation is discharged; a hit the allow-list does not know, or a translation unit clang-query
+    could not read -> UNKNOWN = undecided (exit 2, "unclassified shared mutable state: <where>"), never a pass.  The scan runs inside
+    verify(), i.e. in a worker next to the CBMC targets, not while the spec is built."""
+
+    def __init__(self, tier):
+        super().__init__('static_scan/shared_mutable_state_classified', '(assert false)', solvers=['z3-new', 'z3'],
+                         about='LINT (not a proof): every `mutable` member, non-constexpr function-local static, non-constexpr namespace-scope variable / static data '
+                               'member and const_cast of include/ + src/ (clang-query over clang\'s AST) is in the classified allow-list of specs/C18/scan.py')
+        self.tier = tier
+        self.bound = ('AST scan (clang-query) of the library sources: supporting fact, not a proof; quick tier: src TUs pre-filtered by the tokens mutable / static / '
+                      'thread_local, thorough tier: every TU')
+
+    def verify(self, cross=False):
+        import scan
+        from collections import Counter
+        try:
+            hits, problems = scan.scan_ast(self.tier)
+        except Exception as e:      # noqa (a lint must not crash the check: undecided)
+            hits, problems = [], [f'scan failed: {e}']
+        recs, unknown = scan.classify_ast(hits)
+        self.about += ': ' + ', '.join(f'{n} x {k[0]} [{k[1]}]' for k, n in sorted(Counter((r['kind'], r['class']) for r in recs).items()))
+        self.note = '; '.join(f'{r["file"]}:{r["line"]} {r["name"]} [{r["class"]}] {r["why"]}' for r in recs if r['kind'] == 'mutable member')
+        problem = ''
+        if unknown:
+            problem = 'unclassified shared mutable state: ' + '; '.join(f'{r["file"]}:{r["line"]} {r["kind"]} {r["name"]}' for r in unknown[:8])
+        elif problems:
+            problem = 'translation units the scan could not read: ' + '; '.join(problems[:4])
+        elif not hits:
+            problem = 'the scan found nothing at all (vacuous)'
+        if not problem:
+            return super().verify(cross=False)
+        return {'id': self.name, 'description': self.about + ' -- ' + problem, 'target': self.group, 'status': 'UNKNOWN', 'backend': 'clang-query', 'location': {},
+                'answers': {'static scan': problem}, 'seconds': {}}
+
+
+def lint_vcs(tier='quick'):
+    return [LintVC(tier)]
 
 
 def build(tier):
@@ -507,7 +531,7 @@ def build(tier):
     targets = (solver_targets() + iterator_targets() + objective_targets() + loss_targets(tier) + tune_targets() + wlearner_targets()
                + dataset_const_targets() + functional.targets() + gen_targets + learners.targets())
     return {
-        'targets': targets, 'vcs': [], 'bounded': lint_vcs(),
+        'targets': targets, 'vcs': [], 'bounded': lint_vcs(tier),
         'decided': functional.DECIDED + [
             'METHOD: two threads race on an object only if at least one of them writes it.  Every target is the REAL function (clang AST -> C) under a DFCC contract whose assigns clause is the complete list of what it may write; CBMC checks every store of the extracted text and every footprint write (one per possibly-mutating mention of an erased object, read off clang\'s const analysis) against it, on every path, for all inputs.  C struct layouts are generated from the class definitions on every run (bases flattened, `mutable` recorded), so a member added to a class is part of the frame without touching the spec; pointer / unique_ptr / reference members are C pointers to separate objects (C++ constness does not reach through them, the frame proof does)',
             'SOLVER shared by all fold / trial tasks: solver_t::minimize() const, solver_t::done() const, solver_t::make_lsearch() const and the bodies do_minimize() const of gd, cgd (all 10 beta formulas), lbfgs (the default solver of ml::params_t), quasi (all 5 update formulas), sgm, cocob, osga, ellipsoid, pgm / dgm / fgm, asga2 / asga4, pdsgm (sda / wda) -- 30 of the 37 registered solver ids -- write NOTHING of the solver object and NOTHING of the two line-search prototypes it owns (m_lsearch0 / m_lsearchk: unique_ptr members, writable through a const solver as far as C++ is concerned); make_lsearch() returns two fresh clones, different from the prototypes, and sets the parameters on the clones; the history-carrying state (lsearch_t::m_last_step_size [mutable], the lsearch0 / lsearchk objects\' own members) that lsearch_t::get() const writes belongs to that per-call pair; what else is written is the caller\'s function object (mutable evaluation counters), states and vectors',
